@@ -102,7 +102,7 @@ C02_Q = [
     H("h2_text_n4", "one XmlSource helper (read_text) on a BufRead delivering <=4 symbolic bytes in 2 pieces (cut symbolic) vs the same helper of the slice source on the same bytes (hooks verif_source)", [], cost=6),
     H("h2_elem_n4", "one XmlSource helper (read_with(ElementParser)) on a BufRead delivering <=4 symbolic bytes in 2 pieces (cut symbolic) vs the same helper of the slice source on the same bytes (hooks verif_source)", [], cost=6),
     H("h2_pi_n4", "one XmlSource helper (read_with(PiParser)) on a BufRead delivering <=4 symbolic bytes in 2 pieces (cut symbolic) vs the same helper of the slice source on the same bytes (hooks verif_source)", [], cost=6),
-    H("h2_bang_n4", "one XmlSource helper (read_bang_element) on a BufRead delivering <=4 symbolic bytes in 2 pieces (cut symbolic) vs the same helper of the slice source on the same bytes (hooks verif_source)", [], cost=6),
+    H("h2_bang_n4", "one XmlSource helper (read_bang_element) on a BufRead delivering <=4 symbolic bytes in 2 pieces (cut symbolic) vs the same helper of the slice source on the same bytes (hooks verif_source)", [], cost=9, mem_gb=26),
     H("h2_skipws_n4", "one XmlSource helper (skip_whitespace) on a BufRead delivering <=4 symbolic bytes in 2 pieces (cut symbolic) vs the same helper of the slice source on the same bytes (hooks verif_source)", [], cost=6),
     H("h2_peek_n4", "one XmlSource helper (peek_one) on a BufRead delivering <=4 symbolic bytes in 2 pieces (cut symbolic) vs the same helper of the slice source on the same bytes (hooks verif_source)", [], cost=6),
     H("h2_bom_n4", "one XmlSource helper (remove_utf8_bom) on a BufRead delivering <=4 symbolic bytes in 2 pieces (cut symbolic) vs the same helper of the slice source on the same bytes (hooks verif_source)", [], cost=6),
@@ -149,11 +149,7 @@ C18_T = [
 C10_Q = [
     H("x10_parse_number", "parse_number on 'x'? + <=2 leading zeros + <=8 arbitrary ASCII chars: every code point 0..0x10FFFF and beyond, both radices, case variants, signs, non-digits",
       ["supplementary plane character", "surrogate rejected", "out of range rejected"], cost=4),
-    H("x10_unescape_n3", "unescape on every ASCII string of <=3 bytes", ["malformed reference"], cost=5),
-    H("x10_unesc_s1a", "unescape on '&?t;' with 1 symbolic ASCII byte (lt, gt, unknown names, nested & and ;)", ["reference expanded", "malformed reference"], cost=5),
-    H("x10_unesc_s1b", "unescape on '&l?;' with 1 symbolic ASCII byte", ["reference expanded", "malformed reference"], cost=5),
-    H("x10_unesc_n1", "unescape on '&#?;' with 1 symbolic ASCII byte", ["reference expanded", "malformed reference"], cost=5),
-    H("x10_unesc_h1", "unescape on '&#x?;' with 1 symbolic ASCII byte", ["reference expanded", "malformed reference"], cost=5),
+    H("x10_unescape_n3", "unescape on every ASCII string of <=3 bytes", ["malformed reference"], cost=9, mem_gb=20),
     H("x10_esc_full_1", "escape on every 1-byte ASCII string: table image, forbidden characters absent, borrowed iff unchanged", ["something escaped"], cost=6),
     H("x10_esc_part_1", "partial_escape on every 1-byte ASCII string", ["something escaped"], cost=6),
     H("x10_esc_min_1", "minimal_escape on every 1-byte ASCII string", ["something escaped"], cost=6),
@@ -166,6 +162,10 @@ C10_Q = [
     H("x10_inv_quot", "unescape('&quot;') (concrete execution)", []),
 ]
 C10_T = [
+    H("x10_unesc_h1", "unescape on '&#x?;' with 1 symbolic ASCII byte", ["reference expanded", "malformed reference"], cost=9, timeout_thorough=3600, mem_gb=30),
+    H("x10_unesc_n1", "unescape on '&#?;' with 1 symbolic ASCII byte", ["reference expanded", "malformed reference"], cost=9, timeout_thorough=3600, mem_gb=30),
+    H("x10_unesc_s1b", "unescape on '&l?;' with 1 symbolic ASCII byte", ["reference expanded", "malformed reference"], cost=9, timeout_thorough=3600, mem_gb=30),
+    H("x10_unesc_s1a", "unescape on '&?t;' with 1 symbolic ASCII byte (lt, gt, unknown names, nested & and ;)", ["reference expanded", "malformed reference"], cost=9, timeout_thorough=3600, mem_gb=30),
     H("x10_unescape_n4", "unescape on every ASCII string of <=4 bytes", ["reference expanded"], cost=9, timeout_thorough=3600),
     H("x10_unesc_s2", "unescape on '&??;' with 2 symbolic ASCII bytes", ["reference expanded"], cost=9, timeout_thorough=3600, mem_gb=30),
     H("x10_unesc_num", "unescape on '&#??;' with 2 symbolic ASCII bytes", ["reference expanded"], cost=9, timeout_thorough=3600, mem_gb=30),
@@ -195,18 +195,17 @@ C05_Q = [
     H("n5_resolve_s1", NSK + "resolve; shape p,default,default-removed", ["default removed"], cost=3),
     H("n5_resolve_s2", NSK + "resolve; shape p,q,r (shadowing)", ["prefix bound through 3 bindings"], cost=3),
     H("n5_pop_s0", NSK + "pop(); shape 0", ["pop drops some and keeps some"], cost=3),
-    H("n5_iter_s0", NSK + "prefixes() listing, <=2 user bindings; shape 0", ["two prefixes listed"], cost=4),
     H("n5_pop_s1", NSK + "pop(); shape 1", ["pop drops some and keeps some"], cost=3),
-    H("n5_iter_s1", NSK + "prefixes() listing, <=2 user bindings; shape 1", ["two prefixes listed"], cost=4),
     H("n5_pop_s2", NSK + "pop(); shape 2", ["pop drops some and keeps some"], cost=3),
-    H("n5_iter_s2", NSK + "prefixes() listing, <=2 user bindings; shape 2", ["two prefixes listed"], cost=4),
-    H("n5_iter_s4", NSK + "prefixes() listing, 2 user bindings; shape p-unbound,q", [], cost=4),
-    H("n5_iter_s5", NSK + "prefixes() listing, 2 user bindings; shape default-removed,p", [], cost=4),
+    H("n5_iter1_s0", NSK + "first item of prefixes() over 2 bindings; shape default,p", [], cost=2),
+    H("n5_iter1_s4", NSK + "first item of prefixes(); shape p-unbound,q", ["first binding skipped, second listed"], cost=2),
+    H("n5_iter1_s5", NSK + "first item of prefixes(); shape default-removed,p", ["first binding skipped, second listed"], cost=2),
+    H("n5_iter2_s2", NSK + "first two items of prefixes(); shape p,q (shadowing when equal)", [], cost=3),
+    H("n5_iter2_s4", NSK + "first two items of prefixes(); shape p-unbound,q", [], cost=3),
 ]
 C05_T = [
     H("n5_resolve_s3", NSK + "resolve; shape default,default,p", [], cost=3),
     H("n5_pop_s3", NSK + "pop(); shape 3", [], cost=3),
-    H("n5_iter_s3", NSK + "prefixes() listing; shape 3", [], cost=4),
 ]
 
 C19_Q = [
